@@ -474,7 +474,56 @@ func (g *Gen) unop(v *ssa.UnOp) {
 	}
 }
 
+// guardedStore: "guarded by" discipline (C13). A store to a field of a struct type that the property
+// declares lock-protected carries the obligation that the struct's RWMutex is write-held at that point
+// (sequential typestate: ghost wheld). Constructors and options are exempted by the property config.
+func (g *Gen) guardedStore(v *ssa.Store) {
+	fa, ok := v.Addr.(*ssa.FieldAddr)
+	if !ok || len(g.guardedBy) == 0 {
+		return
+	}
+	st := deref(fa.X.Type())
+	sts, ok := st.Underlying().(*types.Struct)
+	if !ok {
+		return
+	}
+	for _, gb := range g.guardedBy {
+		if typeKey(st) != gb.Struct {
+			continue
+		}
+		fld := sts.Field(fa.Field)
+		if fld.Name() == gb.Lock {
+			continue
+		}
+		skip := false
+		for _, x := range gb.ExemptFields {
+			if x == fld.Name() {
+				skip = true
+			}
+		}
+		if skip {
+			continue
+		}
+		var lock *types.Var
+		for i := 0; i < sts.NumFields(); i++ {
+			if sts.Field(i).Name() == gb.Lock {
+				lock = sts.Field(i)
+			}
+		}
+		if lock == nil {
+			continue
+		}
+		h, _, _ := g.ghostHeap("wheld")
+		if h == "" {
+			continue
+		}
+		m := g.subObj(st, lock, g.v(fa.X))
+		g.oblige("guarded", fld.Name()+":"+g.srcOf(v.Pos(), "assign"), gb.Lock+"-write-held", []string{g.prop}, false, "(select "+g.heap(h)+" "+m+")", v.Pos())
+	}
+}
+
 func (g *Gen) store(v *ssa.Store) {
+	g.guardedStore(v)
 	lv := g.addr(v.Addr)
 	g.nilCheck(lv.ref, v.Addr, v.Pos(), "star", "sel")
 	if lv.kind == "ref" {
